@@ -138,6 +138,20 @@ CLAIMED["C15"] = {
     "ref": "DESIGN.md section 5 (C15)",
 }
 
+CLAIMED["C16"] = {
+    "text": "Proof: memoize_when_activated's wrapper against an abstract source function, in four regimes - inactive "
+            "(plain call), active/empty (one read, value stored, nothing stored on failure), active/cached (no read) and a "
+            "VOLATILE model in which every access to self._cache is decided by an adversarial scheduler (absent / empty / "
+            "holding): only what the source raises can escape and the result is the cached or a freshly produced value, "
+            "source read at most once. Process.oneshot (generator split at its yield, the block may raise): all front-end "
+            "and platform caches dropped on normal and exceptional exit, nested blocks are no-ops. as_dict for every "
+            "attrs shape x per-attribute outcome: exact keys, ad_value, NoSuchProcess propagation, TypeError/ValueError "
+            "before any query.",
+    "note": "volatile model at attribute-operation granularity under the GIL; RLock mutual exclusion assumed; the "
+            "decorators' helper defs (cache_activate/deactivate) are read from the real source.",
+    "ref": "DESIGN.md section 5 (C16)",
+}
+
 NOT_YET = "check not built yet (work in progress, see DESIGN.md section 7)"
 NA = {}
 
